@@ -19,16 +19,16 @@ DRIVERS = ['nets']
 MODULE = 'PymtlVerif.Props.C09'
 THEOREMS = ['PV.C09.' + t for t in [
   'related_iff_overlap', 'overlap_spec', 'upblk_writes_iff', 'upblk_writes_iff_rel', 'multi_writer_iff', 'no_writer_iff',
-  'loop_iff', 'hasCycle_order_free', 'loop_edge_set', 'self_loop', 'dup_is_no_loop', 'verdict_iff', 'verdict_class',
+  'loop_iff', 'floodfill_cycle', 'floodfill_cycle_any_order', 'hasCycle_order_free', 'loop_edge_set', 'self_loop', 'dup_is_no_loop', 'verdict_iff', 'verdict_class',
   'legal_accepted', 'order_invariant_perm', 'order_invariant_flip', 'op_table', 'op_errors_iff', 'port_upblk_table',
-  'port_upblk_iff', 'port_net_table', 'wf_checked']]
+  'port_upblk_iff', 'port_net_table', 'port_walk_spec', 'wf_checked']]
 TRUSTED = [
   'Model/Nets.lean `elaborate`: the stages of Component.elaborate() written from ComponentLevel2/3 (after fix: cb61d3c, 87007f6, be47852)',
   'proved equivalences: related<->shared bit, _check_upblk_writes<->two block drivers of a bit, writer resolution<->two/no outside-driven members '
-  '(least-fixed-point spec), loop test `cyc`<->cycle in the merged connection graph, verdict<->defect, invariance under order/side of connects',
-  'modelled decision tables compared by correspondence only: operator rules, port directions Types 1-9 and loop-back rule, the walk from the '
-  'writer over the adjacency; the code\'s pred-based loop test is modelled as a stack machine (`ffLoop`) and cross-checked against `cyc` on every case, '
-  'not proved equivalent',
+  '(least-fixed-point spec), the pred-based flood-fill stack machine<->cycle in the merged connection graph for every iteration order, verdict<->defect, '
+  'invariance under order/side of connects',
+  'the walk of _check_port_in_nets is specified (port_walk_spec: one connection per non-writer member, oriented away from the writer); '
+  'modelled decision tables compared by correspondence only: operator rules, port directions Types 1-9 and loop-back rule',
   'independence from the order of update blocks / of writes inside blocks and from Python set iteration order: by correspondence over orders',
 ]
 ASSUMPTIONS = [
